@@ -170,11 +170,32 @@ m('C04f_dest_ack_counter_skip', D, """            self._params.positive_ack_para
             self._prepare_finished_pdu()""", """            self._params.positive_ack_params.ack_timer.reset()
             self._params.positive_ack_params.ack_counter += 2 if self._params.remote_cfg.positive_ack_timer_expiration_limit > 2 else 1
             self._prepare_finished_pdu()""")
-m('C11c_shared_finished_params', D, """        self.finished_params: FinishedParams = FinishedParams(
+m('C11c_shared_finished_params', D, """    def __init__(self):
+        self.transaction_id: TransactionId | None = None
+        self.remote_cfg: RemoteEntityCfg | None = None
+        self.check_timer: Countdown | None = None
+        self.current_check_count: int = 0
+        self.closure_requested: bool = False
+        self.checksum_type: ChecksumType = ChecksumType.NULL_CHECKSUM
+        self.finished_params: FinishedParams = FinishedParams(
             delivery_code=DeliveryCode.DATA_INCOMPLETE,
             file_status=FileStatus.FILE_STATUS_UNREPORTED,
             condition_code=ConditionCode.NO_ERROR,
-        )""", """        self.finished_params: FinishedParams = _DEFAULT_FINISHED_PARAMS""")
+        )""", """    def __init__(
+        self,
+        finished_params: FinishedParams = FinishedParams(  # noqa: B008
+            delivery_code=DeliveryCode.DATA_INCOMPLETE,
+            file_status=FileStatus.FILE_STATUS_UNREPORTED,
+            condition_code=ConditionCode.NO_ERROR,
+        ),
+    ):
+        self.transaction_id: TransactionId | None = None
+        self.remote_cfg: RemoteEntityCfg | None = None
+        self.check_timer: Countdown | None = None
+        self.current_check_count: int = 0
+        self.closure_requested: bool = False
+        self.checksum_type: ChecksumType = ChecksumType.NULL_CHECKSUM
+        self.finished_params: FinishedParams = finished_params""")
 m('C12d_cancel_wrong_id_true', S, """            self._notice_of_cancellation(ConditionCode.CANCEL_REQUEST_RECEIVED)
             return True
         return False""", """            self._notice_of_cancellation(ConditionCode.CANCEL_REQUEST_RECEIVED)
